@@ -520,6 +520,7 @@ func (f *Frame) bodyExpr(li *loopInfo, c *Clause, phis map[*ssa.Phi]string, from
 		}
 		return f.lookupVarAt(name, li.head, li.headState)
 	}
+	env.visitedOf = f.visitedFn(li)
 	tv, err := env.tr(c.Expr)
 	if err != nil {
 		f.vc.errorf("%s:%d: %v", c.File, c.Line, err)
@@ -579,12 +580,28 @@ func (f *Frame) loopExpr(li *loopInfo, c *Clause, phis map[*ssa.Phi]string, st *
 		}
 		return f.lookupVarAt(name, li.head, st)
 	}
+	env.visitedOf = f.visitedFn(li)
 	tv, err := env.tr(c.Expr)
 	if err != nil {
 		f.vc.errorf("%s:%d: %v", c.File, c.Line, err)
 		return "true"
 	}
 	return tv.T
+}
+
+// visitedFn returns the accessor of the ghost visited set of a map-range loop.
+func (f *Frame) visitedFn(li *loopInfo) func(h Heap) string {
+	for _, in := range li.head.Instrs {
+		if nx, ok := in.(*ssa.Next); ok {
+			if rg, ok := nx.Iter.(*ssa.Range); ok {
+				key := "it:" + f.fnTag() + f.id + rg.Name()
+				if _, ok := f.vc.eng.keySort[key]; ok {
+					return func(h Heap) string { return h.Get(key) }
+				}
+			}
+		}
+	}
+	return nil
 }
 
 // lookupVarAt resolves a source variable name to its value at the top of block b
